@@ -62,6 +62,15 @@ Fixpoint block_insts (b : block) : list (list (positive * okind)) :=
   end.
 
 Definition all_contexts (D : design) : list context := D.(d_ctxs) ++ flat_map block_contexts D.(d_subs).
+
+(** order in which the contexts are CONVERTED (ConvertPythonInstance: the sub-blocks of a level before its own
+    contexts, recursively); it decides which rejection is reported first, not whether there is one *)
+Fixpoint block_contexts_conv (b : block) : list context :=
+  match b with
+  | BEntity _ => []
+  | BBlock cs subs => flat_map block_contexts_conv subs ++ cs
+  end.
+Definition conv_contexts (D : design) : list context := flat_map block_contexts_conv D.(d_subs) ++ D.(d_ctxs).
 Definition all_insts (D : design) : list (list (positive * okind)) := flat_map block_insts D.(d_subs).
 
 (** ** owners (identity of the context / instance that [written_in] / [used_in] remember) *)
@@ -215,13 +224,28 @@ Definition var_written (e : event) : bool := is_var e.(e_kind) && is_write e.(e_
 Definition front_ctx (c : context) : option reason :=
   if existsb var_written (always_events c) then Some RVarAssign else None.
 
+(** the single pass of a concurrent context ([check_variables_and_temporaries]): the first offending access, in
+    visiting order, decides the message *)
+Fixpoint conc_pass (written : list positive) (es : list event) : option reason :=
+  match es with
+  | [] => None
+  | e :: r =>
+      if is_var e.(e_kind) then Some RVarInConc
+      else match e.(e_kind) with
+           | KTemporary =>
+               match e.(e_acc) with
+               | AR => if mem e.(e_root) written then conc_pass written r else Some RTempRead
+               | _ => conc_pass (e.(e_root) :: written) r
+               end
+           | _ => conc_pass written r
+           end
+  end.
+
 (** ConvertInstance.apply on one context *)
 Definition ci_ctx (m : discipline) (c : context) : option reason :=
   match c.(c_kind) with
   | Concurrent =>
-      (* one pass, both assertions; we only distinguish the first failing kind coarsely *)
-      if existsb (fun e => is_var e.(e_kind)) c.(c_body) then Some RVarInConc
-      else if temps_ok [] c.(c_body) then None else Some RTempRead
+      conc_pass [] c.(c_body)
   | Sequential =>
       (* convert_sequential: variables (current tree), then inherited temporaries, of the always
          expression; afterwards detect_uninitialized_temporaries on the body *)
@@ -244,7 +268,7 @@ Fixpoint first_reason {A} (f : A -> option reason) (l : list A) : option reason 
     "variable assignment only possible in sequential contexts" rule *)
 Definition check_with (m : discipline) (D : design) : verdict :=
   let cs := all_contexts D in
-  match first_reason (ci_ctx m) cs with
+  match first_reason (ci_ctx m) (conv_contexts D) with
   | Some e => Reject e
   | None =>
       match run ustate0 (visits m 0 cs) with
@@ -315,7 +339,7 @@ Definition conflict_freeb (D : design) : bool :=
 (** conditions of ConvertInstance that are not about conflicts between contexts; a
     conflict-free design that violates them is rejected for a different reason *)
 Definition locally_ok (m : discipline) (D : design) : bool :=
-  match first_reason (ci_ctx m) (all_contexts D), first_reason front_ctx (all_contexts D) with
+  match first_reason (ci_ctx m) (conv_contexts D), first_reason front_ctx (all_contexts D) with
   | None, None => true
   | _, _ => false
   end.
